@@ -192,6 +192,60 @@ func runVp8History(enable bool, warm int, calls []Tok) Outcome {
 	return o
 }
 
+// vp8RefFields reads a VP8 payload descriptor the way RFC 7741 4.2 lays it out, independently of the
+// library: a field whose flag is clear is absent and reads as zero, whatever the bits of a shared octet
+// say ("MUST be ignored by receivers").
+func vp8RefFields(b []byte) (f [13]int, ok bool) {
+	if len(b) < 1 {
+		return f, false
+	}
+	f[0], f[1], f[2], f[3] = int(b[0]>>7), int(b[0]>>5&1), int(b[0]>>4&1), int(b[0]&7) // X N S PID
+	idx := 1
+	if f[0] == 1 {
+		if len(b) <= idx {
+			return f, false
+		}
+		x := b[idx]
+		idx++
+		f[4], f[5], f[6], f[7] = int(x>>7), int(x>>6&1), int(x>>5&1), int(x>>4&1) // I L T K
+		if f[4] == 1 {
+			if len(b) <= idx {
+				return f, false
+			}
+			if b[idx]&0x80 != 0 {
+				if len(b) <= idx+1 {
+					return f, false
+				}
+				f[8] = int(b[idx]&0x7F)<<8 | int(b[idx+1])
+				idx += 2
+			} else {
+				f[8] = int(b[idx])
+				idx++
+			}
+		}
+		if f[5] == 1 {
+			if len(b) <= idx {
+				return f, false
+			}
+			f[9] = int(b[idx])
+			idx++
+		}
+		if f[6] == 1 || f[7] == 1 {
+			if len(b) <= idx {
+				return f, false
+			}
+			if f[6] == 1 {
+				f[10], f[11] = int(b[idx]>>6), int(b[idx]>>5&1)
+			}
+			if f[7] == 1 {
+				f[12] = int(b[idx] & 0x1F)
+			}
+			idx++
+		}
+	}
+	return f, true
+}
+
 func runVp8UnmarshalSeq(payloads [][]byte, descs []*vp8Desc, rests [][]byte) Outcome {
 	var o Outcome
 	d := &codecs.VP8Packet{}
@@ -221,6 +275,12 @@ func runVp8UnmarshalSeq(payloads [][]byte, descs []*vp8Desc, rests [][]byte) Out
 		res = append(res, OkV(L(vVp8Pkt(d), Bool(head))))
 		if !bytes.Equal(out, d.Payload) {
 			o.Fail = fmt.Sprintf("step %d: returned bytes differ from Payload field", i)
+		}
+		if ref, ok := vp8RefFields(in); ok {
+			got := [13]int{int(d.X), int(d.N), int(d.S), int(d.PID), int(d.I), int(d.L), int(d.T), int(d.K), int(d.PictureID), int(d.TL0PICIDX), int(d.TID), int(d.Y), int(d.KEYIDX)}
+			if got != ref && o.Fail == "" {
+				o.Fail = fmt.Sprintf("step %d: descriptor %x decoded as X N S PID I L T K PictureID TL0PICIDX TID Y KEYIDX = %v, RFC 7741 reads %v", i, in[:minInt(len(in), 6)], got, ref)
+			}
 		}
 		// reuse: a fresh receiver must agree
 		f := &codecs.VP8Packet{}
